@@ -20,7 +20,7 @@ from src.diagnostic.benchmark_alignment import BenchmarkAlignedPair as BP, Bench
 RULE = ("(a) all lists of n calls (n bound) sorted by (chromosome, refStop), each call = type {insertion,deletion} x chromosome {1,2} x "
         "(refStart<=refStop) over {0,b-1,b,b+1,2b,2b+1}, blur b=4, single-type and mixed lists; (b) the same lists (scaled to b=30000) "
         "through write_indel_file; (c) 3-pair alignments x breakpoint x (reference gap, query gap) pairs around the thresholds x strand x "
-        "both finders; non-trivial = (a,b) two neighbouring calls lie within the blur distance, (c) |diff| within 1 of a threshold")
+        "both finders, plus runs with two alignments and (segment finder) two join points per molecule in either order; non-trivial = (a,b) two neighbouring calls lie within the blur distance, (c) |diff| within 1 of a threshold")
 ASSUMPTIONS = ["call rows have the 8 fields the finders emit; query ids are distinct",
                "sv modules are imported flat from $COMA_REPO/sv as the scripts themselves do"]
 
@@ -173,6 +173,75 @@ def check_finder(which, bp, d1, d2, rev, acc, gq=150000):
     return found
 
 
+D2 = [0, 101, -101, 2001, -2001, 100001, -100001]
+
+
+def _describe_multi(which, specs, acc=None, gq=150000):
+    return dict(kind='finder-sequence', finder=which, alignments=[list(x) for x in specs], query_gap=gq)
+
+
+@core.guarded(_describe_multi)
+def check_finder_multi(which, specs, acc, gq=150000):
+    """several alignments in one call, several join points in one molecule (segment finder): every emitted call must be the
+    self-consistent call of exactly one (molecule, join point); specs: (query id, reference id, reverse, d1, d2, [breakpoints])"""
+    adict, rdict, qdict, bdict, expected = {}, {}, {}, {}, {}
+    found = []
+    case = _describe_multi(which, specs, None, gq)
+    for qid, rid, rev, d1, d2, bps in specs:
+        rpos = [1000 * rid, 1000 * rid + gq + d1, 1000 * rid + 2 * gq + d1 + d2]
+        qpos = [50 * qid, 50 * qid + gq, 50 * qid + 2 * gq]
+        pairs = [(1, 1), (2, 2), (3, 3)] if not rev else [(1, 3), (2, 2), (3, 1)]
+        ap = [BP(BPos(r, 0), BPos(q, 0)) for r, q in pairs]
+        al = BionanoAlignment(1, qid, rid, 0, 0, 0, 0, rev, 1.0, '', 1, 1, ap)
+        adict.setdefault(rid, []).append(al)
+        rdict[rid] = _Map(rpos)        # one alignment per reference id in every spec list
+        qdict[qid] = _Map(qpos)
+        bdict[qid] = [bps[0], ap[bps[0]]] if which == 'molecule' else [[bp, str(ap[bp])] for bp in bps]
+        for bp in bps:
+            rs, re_ = rpos[pairs[bp][0] - 1], rpos[pairs[bp + 1][0] - 1]
+            qs, qe = qpos[pairs[bp][1] - 1], qpos[pairs[bp + 1][1] - 1]
+            expected[(qid, rs, re_)] = (rid, qs, qe, abs(rs - re_) - abs(qs - qe))
+    try:
+        mod = molecule_indels if which == 'molecule' else segment_indels
+        res = mod.look_for_indels_in_breakage(adict, rdict, qdict, bdict)
+    except Exception as e:
+        res = None
+        found.append(('finder-exception', '%s: %s' % (type(e).__name__, e), which, {'alignments': len(specs)}))
+    ncalls = 0
+    if res is not None:
+        seen = set()
+        for k, v in res.items():
+            for c in v:
+                ncalls += 1
+                key = (c[4], c[2], c[3])
+                if key not in expected:
+                    found.append(('call-for-no-join-point', str(c), which, {'alignments': len(specs)}))
+                    continue
+                rid, qs, qe, diff = expected[key]
+                if key in seen:
+                    found.append(('more-than-one-call-for-one-breakpoint', str(c), which, {'alignments': len(specs)}))
+                seen.add(key)
+                if c[0] != k:
+                    found.append(('call-filed-under-other-type', str(c), which, {'alignments': len(specs)}))
+                if c[7] != diff:
+                    found.append(('length-is-not-reference-gap-minus-query-gap', 'call %s expected %s' % (c, diff), which, {'alignments': len(specs)}))
+                if (c[0] == 'insertion') != (c[7] < 0):
+                    found.append(('type-sign', str(c), which, {'alignments': len(specs)}))
+                if [c[1], c[5], c[6]] != [rid, qs, qe]:
+                    found.append(('call-coordinates', 'call %s expected %s' % (c, [rid, qs, qe]), which, {'alignments': len(specs)}))
+    if acc is not None:
+        acc.evals += 1
+        acc.transitions += sum(len(x[5]) for x in specs)
+        acc.state(('fm', which, None if res is None else tuple(sorted((c[0], c[4], c[7]) for v in res.values() for c in v))))
+        if ncalls >= 2:
+            acc.nontriv((which, tuple(tuple(map(str, x)) for x in specs)))
+            acc.classes['several-calls-in-one-run'] += 1
+        for f in found:
+            acc.viol(f[0], case, f[1], f[2], f[3])
+        acc.sample(case)
+    return found
+
+
 def sorted_lists(n):
     """all lists of n calls that are already sorted by (chromosome, refStop) - the order the writer produces"""
     for combo in itertools.product(range(len(CALLS)), repeat=n):
@@ -205,6 +274,18 @@ class Clusters(core.Layer):
                                 for rev in (False, True):
                                     acc.seq += 1
                                     check_finder(which, bp, d1, d2, rev, acc, gq)
+            for which in ('molecule', 'segment'):
+                bsets = [[0], [1]] if which == 'molecule' else [[0, 1], [1, 0], [0], [1]]
+                for bps in bsets:
+                    for d1 in D2:
+                        for d2 in D2:
+                            for rev in (False, True):
+                                acc.seq += 1
+                                check_finder_multi(which, [(9, 4, rev, d1, d2, bps)], acc)
+                                for d3 in D2[1:5]:
+                                    for rev2 in (False, True):
+                                        acc.seq += 1
+                                        check_finder_multi(which, [(9, 4, rev, d1, d2, bps), (12, 5, rev2, d3, 0, [0])], acc)
             return
         if b == len(CALLS) + 1:
             single = [c for c in CALLS if c[0] == 'insertion'][::3]
@@ -231,6 +312,8 @@ class Clusters(core.Layer):
             return check_cluster([tuple(x) for x in case['calls']], None)
         if case['kind'] == 'write':
             return check_write([tuple(x) for x in case['insertions']], [tuple(x) for x in case['deletions']], None)
+        if case['kind'] == 'finder-sequence':
+            return check_finder_multi(case['finder'], [tuple(x) for x in case['alignments']], None, case.get('query_gap', 150000))
         return check_finder(case['finder'], case['breakpoint'], case['ref_delta'][0], case['ref_delta'][1], case['reverse'], None, case.get('query_gap', 150000))
 
 
